@@ -1,5 +1,6 @@
 import Xp.Base.JsonIO
 import Xp.Model.C09
+import Xp.Model.C09World
 namespace Xp.C09
 open Lean (Json)
 open Xp.IOx
@@ -42,9 +43,106 @@ def leakHandler : Handler := fun scn => do
   let ok := !(ctrl == .other) || slot.isNone
   return (Json.mkObj [("xrSecret", slotJson slot), ("synced", .bool synced)], ok, if ok then "" else "C09:foreign-details-published")
 
+/-! ### world and flow scenarios (Model/C09World.lean) -/
+
+def keyOf (j : Json) : Key := (str j "ns", str j "name")
+
+def optKey (j : Json) (k : String) : Option Key := if has j k then some (keyOf (obj j k)) else none
+
+def asecOf (j : Json) : Key × ASecret :=
+  (keyOf j, ⟨str j "type", if str j "ctrl" == "" then none else some (str j "ctrl"), strs j "plain", dataOf j "data"⟩)
+
+def clsOf : String → ECls
+  | "notFound" => .notFound | "conflict" => .conflict | "alreadyExists" => .alreadyExists
+  | "invalid" => .invalid | "forbidden" => .forbidden | "temporary" => .temporary | _ => .deadline
+
+def faultOf (j : Json) (k : String) : Option Fault :=
+  if has j k then let f := obj j k; some ⟨nat f "idx", clsOf (str f "cls"), bool f "lost"⟩ else none
+
+def worldOf (j : Json) : World := (arr j "secrets").foldl (fun w s => let (k, a) := asecOf s; wset w k a) []
+
+def keyLe (a b : Key) : Bool := a.1 < b.1 || (a.1 == b.1 && a.2 ≤ b.2)
+
+def worldJson (w : World) : Json :=
+  Json.arr ((w.mergeSort fun a b => keyLe a.1 b.1).map fun (k, s) =>
+    Json.mkObj [("ns", .str k.1), ("name", .str k.2), ("type", .str s.type), ("ctrl", .str (s.ctrl.getD "")),
+      ("plain", Json.arr ((s.plain.mergeSort fun a b => a ≤ b).map Json.str).toArray), ("data", dataJson s.data)]).toArray
+
+def outJson (o : Out) : List (String × Json) :=
+  [("published", .bool o.published), ("err", .bool o.err), ("writes", Json.num o.writes)]
+
+def worldHandler : Handler := fun scn => do
+  let filter := strs scn "filter"
+  let mut w := worldOf scn
+  let mut calls : Array Json := #[]
+  for o in arr scn "ops" do
+    let e : EnvW := { fault := faultOf o "fault", swap := bool o "swap" }
+    let op : Op :=
+      if str o "kind" == "pub" then .pub (str o "me") (optKey o "ref") (dataOf o "details")
+      else .prop (str o "me") (str o "cns") (optStr o "cref") (str o "xr") (optKey o "xref")
+    let (w', out) := stepW filter e w op
+    w := w'
+    -- the concurrent writer acts when the write to the claim's secret is attempted
+    match op with
+    | .prop _ _ (some _) _ (some sk) =>
+      if e.swap && out.writes > 0 then w := wset w sk (swappedA (wget w sk))
+    | _ => pure ()
+    calls := calls.push (Json.mkObj (outJson out))
+  return (Json.mkObj [("calls", Json.arr calls), ("secrets", worldJson w)], true, "")
+
+def ctrlOfT : String → Ctrl
+  | "xr" => .owner | "other" => .other | _ => .none
+
+def cfgOf (c : Json) : Cfg :=
+  ⟨str c "type", str c "name", if str c "key" == "" then none else some (str c "key"),
+    if str c "path" == "" then none else some (str c "path"),
+    if bool c "hasV" then some (str c "value") else none⟩
+
+def flowHandler : Handler := fun scn => do
+  let filter := strs scn "filter"
+  let xrs := arr scn "xrs"
+  let mut w := worldOf scn
+  let mut recs : Array Json := #[]
+  -- (XR index, template index) of the templates that were given a fresh resource (adoptFresh)
+  let mut fresh : List (Nat × Nat) := []
+  for rc in arr scn "recs" do
+    let xi := nat rc "xr"
+    match xrs[xi]? with
+    | none => pure ()
+    | some x =>
+      let tj := arr x "tmpls"
+      let ref := optKey x "ref"
+      let fn := str x "mode" == "fn"
+      -- the failing Get of one connection secret (by key: templates sharing it are all affected)
+      let fetchKey : Option Key :=
+        if has rc "fetch" then (tj[nat (obj rc "fetch") "t"]?).bind fun t => optKey t "sec" else none
+      let fetchNF := str (obj rc "fetch") "cls" == "notFound"
+      let ts := tj.zipIdx.map fun (t, ti) =>
+        if fresh.contains (xi, ti) then
+          ({ cdName := "", ctrl := .owner, secret := none, fetchErr := false, cfgs := (arr t "cfgs").map cfgOf } : Tmpl)
+        else
+        let sec := optKey t "sec"
+        let hit := sec.isSome && sec == fetchKey
+        let data := sec.bind fun k => (wget w k).map (·.data)
+        ({ cdName := str t "cd", ctrl := ctrlOfT (str t "ctrl"), secret := if hit then none else data,
+           fetchErr := hit && !fetchNF, cfgs := (arr t "cfgs").map cfgOf } : Tmpl)
+      -- functions: the XR's own connection details are fetched first, through the same client
+      let ownErr := fn && ref.isSome && ref == fetchKey && !fetchNF
+      let e : EnvW := { fault := faultOf rc "fault" }
+      let (w', out, composed) := if ownErr then (w, Out.fail 0, false) else flowStep filter e w fn (str x "uid") ref ts
+      w := w'
+      -- adoptFresh
+      if fn && composed then
+        for (t, ti) in ts.zipIdx do
+          if t.ctrl == .other then fresh := (xi, ti) :: fresh
+      recs := recs.push (Json.mkObj ([("composed", .bool composed)] ++ outJson out))
+  return (Json.mkObj [("recs", Json.arr recs), ("secrets", worldJson w)], true, "")
+
 def handler : Handler := fun scn => do
   let op := str scn "op"
   if op == "ptflow" then return ← leakHandler scn
+  if op == "world" then return ← worldHandler scn
+  if op == "flow" then return ← flowHandler scn
   let rounds := nat scn "rounds"
   let dest := slotOf (obj scn "dest")
   let src := slotOf (obj scn "src")
